@@ -1,6 +1,7 @@
 package main
 
 import (
+	"strconv"
 	"fmt"
 	"go/token"
 	"go/types"
@@ -368,6 +369,24 @@ func verifyFuncMode(w *World, ss *SpecSet, fn *ssa.Function, sweep, finder bool)
 		t := e.value(p)
 		e.inputs = append(e.inputs, modelVar{Name: p.Name(), Term: t, Ty: p.Type(), NDecl: len(e.decls)})
 	}
+	// a closure's captured variables: a free variable bound to the address of a local of the enclosing function is non-nil
+	if par := fn.Parent(); par != nil {
+		for _, b := range par.Blocks {
+			for _, in := range b.Instrs {
+				mc, ok := in.(*ssa.MakeClosure)
+				if !ok || mc.Fn != ssa.Value(fn) {
+					continue
+				}
+				for i, bd := range mc.Bindings {
+					if _, isAlloc := bd.(*ssa.Alloc); isAlloc && i < len(fn.FreeVars) {
+						t := e.value(fn.FreeVars[i])
+						e.assume(fmt.Sprintf("(> %s 0)", t))
+						e.assumeAllocated(t, fn.FreeVars[i].Type())
+					}
+				}
+			}
+		}
+	}
 	// walker contract: listener callbacks receive a non-nil context of their own type
 	if fn.Signature.Recv() != nil && len(fn.Params) == 2 && (strings.HasPrefix(fn.Name(), "Enter") || strings.HasPrefix(fn.Name(), "Exit")) {
 		p := fn.Params[1]
@@ -426,6 +445,35 @@ func verifyFuncMode(w *World, ss *SpecSet, fn *ssa.Function, sweep, finder bool)
 		return res
 	}
 	entry := copyMem(e.mem)
+	// every `assert before/after Callee#k` must name a call that exists (otherwise the clause would silently vanish)
+	if ct != nil && (len(ct.Before) > 0 || len(ct.After) > 0) {
+		byName := map[string]int{}
+		for _, b := range fn.Blocks {
+			for _, in := range b.Instrs {
+				if cc, ok := in.(*ssa.Call); ok {
+					if n := calleeShort(cc); n != "" {
+						byName[n]++
+					}
+				}
+			}
+		}
+		chk := func(key string) {
+			i := strings.LastIndex(key, "#")
+			if i < 0 {
+				return
+			}
+			k, _ := strconv.Atoi(key[i+1:])
+			if k < 1 || k > byName[key[:i]] {
+				e.contractError(fr, fmt.Sprintf("assert before/after %s: the function has %d call(s) of %s", key, byName[key[:i]], key[:i]))
+			}
+		}
+		for key := range ct.Before {
+			chk(key)
+		}
+		for key := range ct.After {
+			chk(key)
+		}
+	}
 	e.run(fr, "true")
 	// keep the entry snapshot complete (components created lazily start at their initial value)
 	for k, v := range entry {
